@@ -245,6 +245,18 @@ def wideratio_compound(mode: str, version: int, thorough: bool = False):
             ds = [shapes(e, i + 3)[(i + variant + 2) % 5] for i in range(nd)]
             out.append(("op:WideRatio:%dx%d:%d" % (nn, nd, variant),
                         prog(mode, ("Seq", e.tag(60), e.observe_u(("Bin", "Minus", ("WideRatio", tuple(ns), tuple(ds)), ("Int", 0))))), {}))
+    # the ORDER of the factors matters for which programs fail: a factor that is zero at run time, written before
+    # literal factors whose own product does not fit in 128 bits, keeps every running product at zero
+    for nm, ns, ds in (("zero-first", ["z", "M", "M", "M"], ["1", "1"]), ("zero-second", ["M", "z", "M", "M"], ["1", "1"]),
+                       ("zero-third", ["M", "M", "z", "M"], ["1", "3"]), ("zero-last", ["M", "M", "M", "z"], ["1", "1"]),
+                       ("zero-between-runtime", ["m", "z", "M", "M"], ["1", "1"]), ("two-runtime-then-literals", ["m", "m2", "M", "M"], ["M", "1"]),
+                       ("zero-first-3", ["z", "M", "M"], ["1", "1"]), ("literal-runtime-alternating", ["M", "m", "M", "z", "M"], ["1", "1"])):
+        e = Env(mode, version)
+        tr = {"M": lambda: ("Int", M), "1": lambda: ("Int", 1), "3": lambda: ("Int", 3),
+              "z": lambda: ("If", e.u(0), ("Int", 0), ("Int", 2)), "m": lambda: ("If", e.u(1), ("Int", M), ("Int", 5)),
+              "m2": lambda: ("If", e.u(2), ("Int", 1), ("Int", M))}
+        out.append(("op:WideRatio:order:%s" % nm,
+                    prog(mode, ("Seq", e.tag(60), e.observe_u(("WideRatio", tuple(tr[k]() for k in ns), tuple(tr[k]() for k in ds))))), {}))
     # one fully symbolic factor among small constants (wide arithmetic with one unknown; ~1 min each)
     if not thorough:
         return out
